@@ -193,6 +193,10 @@ type driver struct {
 	gen    *lineGen
 	auxSeen int64 // size of aux.log at the last scan (start or sync)
 	rotPending bool // the file at the path was replaced while the scanner runs and no sync has followed yet
+	// the file at the path was rewritten in place (same identity, shorter) and a sync has noticed: the map holds a
+	// new descriptor, the worker keeps its own, is told to stop at EOF and a later sync starts its successor
+	detached  bool
+	detSleeps int // sleeps it has begun since (one is in order: the request counts from the next read on)
 
 	ids  []string // file identities seen, in order
 	kevs []string
@@ -239,6 +243,7 @@ func (d *driver) start() error {
 	p.h = h
 	d.p = p
 	d.owner, d.parked, d.held = map[int64]int{}, nil, nil
+	d.detached, d.detSleeps = false, 0
 	d.ophase, d.oheld, d.ohev, d.oo = "", nil, nil, nil
 	return nil
 }
@@ -305,6 +310,11 @@ func (d *driver) settle(who int, where string) bool {
 			if who == wCur {
 				d.held, d.phase = req, "sleep"
 				d.o.sleep(req.partial, d)
+				if d.detached {
+					if d.detSleeps++; d.detSleeps > 1 {
+						d.o.fail("worker-of-a-rewritten-file-does-not-return", fmt.Sprintf("the file at the path was rewritten in place with shorter content (%d bytes) and a sync has noticed; its worker found EOF again and sleeps instead of returning, so no worker will read the new content", len(d.content)))
+					}
+				}
 			} else {
 				d.oheld, d.ophase = req, "sleep"
 				d.oo.sleep(req.partial, d)
@@ -330,6 +340,13 @@ func (d *driver) settle(who int, where string) bool {
 			d.obs = append(d.obs, GApp("OHand", gRecs(ext)))
 			return true
 		case <-tick.C:
+			if who == wCur && d.detached && d.curStopped() {
+				// told to stop at EOF, it has drained what it had and returned; the next sync starts its successor
+				d.phase = "done"
+				d.tag["rewritten-file-worker-returned"]++
+				d.obs = append(d.obs, "OExit")
+				return true
+			}
 			if who == wCur && d.curStopped() {
 				d.other(7, "worker-returned-on-its-own", "the worker of the file at the path returned (not stopped, not told to stop at EOF) "+where)
 				return false
@@ -358,13 +375,27 @@ func (d *driver) oldWorker() *scanner.VC17Worker {
 	}
 	return nil
 }
-func (d *driver) curStopped() bool {
+// curWorker: the worker the driver calls current: the one of the path's descriptor, or - after a rewrite in place
+// that a sync has noticed - the one that still reads with the descriptor it was started with
+func (d *driver) curWorker() *scanner.VC17Worker {
+	var det *scanner.VC17Worker
 	for _, w := range d.p.h.Workers() {
-		if w.Current && w.File == d.path && w.Stopped {
-			return true
+		w := w
+		if w.File != d.path {
+			continue
+		}
+		if w.Current {
+			return &w
+		}
+		if d.ophase == "" || d.ophase == "done" || w.Id != d.oid {
+			det = &w
 		}
 	}
-	return false
+	return det
+}
+func (d *driver) curStopped() bool {
+	w := d.curWorker()
+	return w != nil && w.Stopped
 }
 func (d *driver) oldStopped() bool {
 	w := d.oldWorker()
@@ -545,6 +576,12 @@ func (d *driver) apply(op Op) bool {
 			return false
 		}
 		off, okd := d.descOffset()
+		if d.detached {
+			// the worker's own descriptor, no longer the one in the scanner's map
+			if w := d.curWorker(); w != nil && !w.Current {
+				off, okd = w.Offset-d.rp.Base, true
+			}
+		}
 		if !okd {
 			d.other(4, "descriptor-missing", "no single descriptor after a confirmation")
 			return false
@@ -581,7 +618,9 @@ func (d *driver) apply(op Op) bool {
 		if d.err != nil {
 			return false
 		}
-		d.obs = append(d.obs, "OExit")
+		if d.phase != "done" {
+			d.obs = append(d.obs, "OExit")
+		}
 		pd, err := d.readPersisted()
 		if err == nil && pd == nil && d.o.viol != nil {
 			d.obs = append(d.obs, GApp("OOther", GNat(6)))
@@ -604,7 +643,9 @@ func (d *driver) apply(op Op) bool {
 		if d.err != nil {
 			return false
 		}
-		d.obs = append(d.obs, "OExit")
+		if d.phase != "done" {
+			d.obs = append(d.obs, "OExit")
+		}
 		d.phase, d.graceful = "down", false
 	case "start":
 		d.kevs = append(d.kevs, "KStart")
@@ -686,24 +727,39 @@ func (d *driver) apply(op Op) bool {
 		if fresh {
 			// the worker of the file that was at the path goes on with the file it has open, told to stop at
 			// EOF; a worker that was draining already is abandoned (it stays blocked where it is)
-			if d.oheld != nil {
-				d.parked = append(d.parked, d.oheld)
-			}
-			for g, ow := range d.owner {
-				if ow == wOld {
-					d.owner[g] = wDead
-				} else if ow == wCur {
-					d.owner[g] = wOld
+			if d.phase == "done" {
+				// the successor of a worker that has returned (rewrite in place): nobody goes on with an old file
+				for g, ow := range d.owner {
+					if ow == wCur {
+						d.owner[g] = wDead
+					}
 				}
+				d.detached = false
+			} else {
+				if d.oheld != nil {
+					d.parked = append(d.parked, d.oheld)
+				}
+				for g, ow := range d.owner {
+					if ow == wOld {
+						d.owner[g] = wDead
+					} else if ow == wCur {
+						d.owner[g] = wOld
+					}
+				}
+				d.ophase, d.oheld, d.ohev, d.oid = d.phase, d.held, d.hev, oldId
+				d.held, d.hev = nil, nil
+				d.oo = d.o.forOld(d)
+				d.detached = false
+				d.tag["rotated-worker-"+d.ophase]++
 			}
-			d.ophase, d.oheld, d.ohev, d.oid = d.phase, d.held, d.hev, oldId
-			d.held, d.hev = nil, nil
-			d.oo = d.o.forOld(d)
-			d.tag["rotated-worker-"+d.ophase]++
 			off, _ := d.descOffset()
 			d.obs = append(d.obs, GApp("OFresh", GNat(int(off))))
 			d.o.fresh(d)
 			return d.settle(wCur, "after a sync that started a worker")
+		}
+		if w := d.curWorker(); w != nil && !w.Current && !w.Stopped && !d.detached && d.phase != "done" {
+			d.detached, d.detSleeps = true, 0
+			d.tag["rewritten-in-place-noticed"]++
 		}
 	case "orun":
 		d.kevs = append(d.kevs, "KOldRun")
@@ -1548,6 +1604,14 @@ func corpus() []*Replay {
 		// offsets beyond 2^31 and 2^32: the file begins with a hole that the saved state says is shipped
 		{B: 64, Rpe: 1, Format: "pure", Base: 1<<31 - 2, Init: bs("abc\ndef\n"), Ops: []Op{{K: "start"}, {K: "confirm"}, {K: "persist"}, {K: "confirm"}, {K: "stop"}, {K: "app", Data: bs("g\n")}, {K: "start"}, {K: "confirm"}}},
 		{B: 64, Rpe: 2, Format: "text", Base: 1<<32 - 3, Init: bs("abc\ndef\nghi"), Ops: []Op{{K: "start"}, {K: "confirm"}, {K: "crash"}, {K: "start"}, {K: "confirm"}, {K: "sync"}, {K: "persist"}}},
+		// rewritten in place with SHORTER content while the worker runs (copytruncate; the identity stays): the sync
+		// replaces the descriptor and tells the worker to stop at EOF, the worker returns, the next sync starts its
+		// successor at 0: the new content is shipped from its beginning, once. Worker at EOF (asleep) ...
+		{B: 64, Rpe: 2, Format: "pure", Init: bs("aaaa\nbbbb\n"), Ops: []Op{{K: "start"}, {K: "confirm"}, {K: "replace", Mode: "truncate", Data: bs("x\n")}, {K: "sync"},
+			{K: "run"}, {K: "run"}, {K: "sync"}, {K: "confirm"}, {K: "persist"}, {K: "app", Data: bs("y\n")}, {K: "run"}, {K: "confirm"}}},
+		// ... and behind (a confirmation pending; what it had read into its buffer is still shipped)
+		{B: 64, Rpe: 1, Format: "text", Init: bs("l1\nl2\nl3\n"), Ops: []Op{{K: "start"}, {K: "replace", Mode: "truncate", Data: bs("x\n")}, {K: "sync"}, {K: "confirm"}, {K: "confirm"},
+			{K: "confirm"}, {K: "run"}, {K: "sync"}, {K: "confirm"}, {K: "stop"}, {K: "start"}}},
 		// collector.Run as the consumer: a write the server fails is written again (witness of
 		// C17_stored_confirm_on_server_error_refuted), a communication error too; stop, append, start
 		{Stream: "collector", B: 64, Rpe: 2, Format: "pure", Init: bs("1\n2\n3\n4\n"), Ops: []Op{{K: "start"}, {K: "write", Mode: "ok"}, {K: "write", Mode: "srv"},
